@@ -414,4 +414,42 @@ def c10_scan(tier, seed):
 
 E('C10', c10_scan)
 
+# ----------------------------------------------------------------------------- C11
+prop('C11', 'other',
+     'Proved for all inputs: the series kernel atan<16> stays within [0, z] on its call domain (CBMC/kissat); each of the '
+     'four atan_sum segments keeps the reduced argument inside that domain and its result inside the segment bounds '
+     '(INT, kernel/div_ by contract); atan is bounded by the library pi/2 constant, has the sign of its argument, is 0 at '
+     '0, saturates to pi/2 above 2^18 and has no overflow for ANY finite argument (INT over the segment contracts); '
+     'atan(-x) == -atan(x) (CBMC lemma, kernels under the determinism abstraction); atan2 satisfies the quadrant, sign, '
+     'axis and NaN clauses for all |y|,|x| < 2^31 (INT over the contracts of atan and operator/). Accuracy (5e-5, 8e-5) '
+     'needs the real arctangent and monotonicity is a forall-forall relation over non-linear kernels: both are decided '
+     'by native stand-ins (atan: every raw x in [0, 2^34) in the thorough tier, above which atan is the constant pi/2; '
+     'a structured subset in the quick tier; atan2: structured/random pairs, bounded).',
+     technique='CBMC contracts + kissat (kernel), INT back end (segments, bound, atan2 clauses), UF lemma (oddness); native stand-ins for accuracy and monotonicity',
+     assumptions=['glibc atanl/atan2l (long double) as the accuracy oracle of the stand-ins',
+                  'atan2 accuracy on the full pair domain rests on the staged paper argument (quotient within 1 ulp by C03, |atan\'| <= 1, atan accuracy) plus the bounded native sample'])
+ATAN_K = '_ZN9fixedmath6detail4atanILi16EEEll'
+ATAN = '_ZN9fixedmath4atanENS_7fixed_tE'
+ATAN2 = '_ZN9fixedmath5atan2ENS_7fixed_tES0_'
+ATAN_SUM = ['_ZN9fixedmath6detail8atan_sumILi16ELl27028ELl28672EEEll', '_ZN9fixedmath6detail8atan_sumILi16ELl39472ELl45056EEEll',
+            '_ZN9fixedmath6detail8atan_sumILi16ELl57076ELl77824EEEll', '_ZN9fixedmath6detail8atan_sumILi16ELl77429ELl159744EEEll']
+K_ATAN_K = (ATAN_K, 'pre_atan_k', 'post_atan_k')
+K_ATAN_SUM = [(ATAN_SUM[i], 'pre_atan_sum%d' % (i + 1), 'post_atan_sum%d' % (i + 1)) for i in range(4)]
+K_ATAN = (ATAN, 'pre_valid1', 'post_atan')
+U('C11', 'c11.atan_k', ATAN_K, 'pre_atan_k', 'post_atan_k', cxx='fixedmath::detail::atan<16>($1)', backends=MULBE, timeout=1800, split=True)
+for i in range(4):
+    U('C11', 'c11.atan_sum%d' % (i + 1), ATAN_SUM[i], K_ATAN_SUM[i][1], K_ATAN_SUM[i][2], replace=[K_ATAN_K, K_DIV16], cxx=None, **INTQ)
+U('C11', 'c11.atan', ATAN, 'pre_valid1', 'post_atan', replace=[K_ATAN_K] + K_ATAN_SUM, cxx='fixedmath::atan($1)', **INTQ)
+U('C11', 'c11.odd', 'lem_c11_odd', 'pre_valid1', None, lemma=True, cxx='lem_c11_odd($1)',
+  replace=[(ATAN_K, 'UF', 'post_atan_k')] + [(K_ATAN_SUM[i][0], 'UF', K_ATAN_SUM[i][2]) for i in range(4)], backends=('sat', 'kissat'), timeout=300)
+U('C11', 'c11.atan2', ATAN2, 'pre_c11_atan2', 'post_atan2', replace=[K_ATAN, K_DIVF, I2F_L], cxx='fixedmath::atan2($1,$2)', **INTQ)
+
+
+def c11_scan(tier, seed):
+    return _native.run_native('c11_atan_scan', 'c11_atan_scan.cc', 'abacus', [seed, 0 if tier == 'quick' else 1],
+                              label='bounded stand-in (not proved): accuracy and monotonicity clauses of C11')
+
+
+E('C11', c11_scan)
+
 NOT_APPLICABLE = {}
